@@ -72,9 +72,21 @@ def gen_script(rng):
         tests.append({"id": t, "actions": actions})
     # --ignore-new-thread may be given several times: each pattern stands alone (match mode: a name that merely
     # contains the pattern is not ignored)
+    hooks = {}
+    if rng.random() < 0.3:
+        # a layer whose per-test set-up hook starts threads for some tests (not the first): they exist when the test
+        # begins, whoever ends them - a later test, or nobody
+        for t in range(1, ntests):
+            if rng.random() < 0.6:
+                api = rng.choice(["threading", "_thread"])
+                hooks[str(t)] = {"before": [["start", uid, api, "srv-%d" % uid]]}
+                later = [x for x in range(t, ntests)]
+                if rng.random() < 0.5:
+                    tests[rng.choice(later)]["actions"].append(["finish", uid])
+                uid += 1
     ignore = rng.choice([["ign"], ["ign"], ["(?i)ign", "W\\d"], ["(w)orker-9", "(\\w+)=\\1"], ["ign", "w\\d+$"], ["IGN", "ign"],
                          ["idle", "Dummy-\\d{6,}$"], ["ign", "Dummy-\\d{6,}$"]])
-    return {"tests": tests, "ignore": ignore}
+    return dict({"tests": tests, "ignore": ignore}, **({"hooks": hooks} if hooks else {}))
 
 
 def run_real(ctx, script, idx):
@@ -135,6 +147,16 @@ def directed_scripts():
                           {"id": 2, "actions": [["start", 3, "_thread", "x"], ["rename", 3, "x"]]},
                           {"id": 3, "actions": [["rename", 0, "idle-0"]]}],
                 "ignore": ["idle", "Dummy-\\d{6,}$"]})
+    # a layer's per-test set-up hook (re)starts a server thread for the second and third test; the second test ends
+    # its own, the third leaves one of its own behind
+    out.append({"tests": [{"id": 0, "actions": [["start", 0, "threading", "w0"], ["finish", 0]]},
+                          {"id": 1, "actions": [["finish", 10]]},
+                          {"id": 2, "actions": [["start", 1, "threading", "w1"]]},
+                          {"id": 3, "actions": []}],
+                "hooks": {"1": {"before": [["start", 10, "threading", "srv-10"]]},
+                          "2": {"before": [["start", 11, "threading", "srv-11"]]},
+                          "3": {"before": [["start", 12, "_thread", "x"]]}},
+                "ignore": ["ign"]})
     return out
 
 
